@@ -1,34 +1,120 @@
 (* C13 — conversion leaves the host process as it found it.
    Only statements here; model and proofs live in theories/Patch.v (hand-written executable model of
    apply_patches / apply_monkey_patches / the x64 managers / the jit trace cache, tied to the running
-   code by harness/c13.py on every run). *)
+   code by harness/c13.py on every run).
+   The model has two CODE SHAPES: `true` = /repo since commit b0781c1 (ownership recorded when
+   patching, unowned attributes restored by delattr, apply loop of apply_monkey_patches inside its
+   try), `false` = the code before it.  PART F states what the current code satisfies; PART L keeps
+   the weaker theorems and the refutations of the old code (the harness recognises both shapes). *)
 From Coq Require Import List Bool ZArith.
 From J2O Require Import Patch.
 Import ListNotations.
 
-(* ---- the faithful loop-with-finally model is the structural one the proofs use *)
-Theorem C13_apply_patches_is_nested_try_finally : forall M specs f body h,
-  with_patches M specs f body h = core M (annotate specs 0 f) (body_of f body) h.
+(* ================================================================== both code shapes *)
+Theorem C13_apply_patches_is_nested_try_finally : forall M fixed specs f body h,
+  with_patches M fixed specs f body h = core M fixed (annotate specs 0 f) (body_of f body) h.
 Proof. exact with_patches_core. Qed.
 Print Assumptions C13_apply_patches_is_nested_try_finally.
 
+(* ================================================================== PART F: the code since b0781c1 *)
+(* every own dict restored exactly: ALL spec lists (duplicates, inheriting targets in any order),
+   ALL synchronous fault points, ALL restoring bodies; no side condition *)
+Theorem C13_apply_patches_restores_exact : forall M specs f body h,
+  sync_fault f -> body_restores body ->
+  forall u b, fst (with_patches M true specs f body h) u b = h u b.
+Proof. exact apply_patches_restores_exact. Qed.
+Print Assumptions C13_apply_patches_restores_exact.
+
+Theorem C13_apply_patches_restores : forall M specs f body h,
+  sync_fault f -> body_restores body ->
+  forall D a, lookup M (fst (with_patches M true specs f body h)) D a = lookup M h D a.
+Proof. exact apply_patches_restores_getattr. Qed.
+Print Assumptions C13_apply_patches_restores.
+
+Theorem C13_own_dict_restored : forall M specs f body h t a,
+  sync_fault f -> body_restores body ->
+  (forall x, h t a = Some x -> fst (with_patches M true specs f body h) t a = Some x) /\
+  (h t a = None -> fst (with_patches M true specs f body h) t a = None).
+Proof. exact own_dict_restored. Qed.
+Print Assumptions C13_own_dict_restored.
+
+(* nesting: an activation is itself a restoring body *)
+Theorem C13_nested_restores : forall M specs f body,
+  sync_fault f -> body_restores body -> body_restores (with_patches M true specs f body).
+Proof. exact with_patches_is_restoring_body. Qed.
+Print Assumptions C13_nested_restores.
+
+Theorem C13_stack_restores : forall M frames body,
+  (forall sf, In sf frames -> sync_fault (snd sf)) -> body_restores body ->
+  body_restores (with_stack M true frames body).
+Proof. exact stack_restores_exact. Qed.
+Print Assumptions C13_stack_restores.
+
+Theorem C13_history_restores : forall M body, body_restores body ->
+  forall hist h,
+  (forall frames, In frames hist -> forall sf, In sf frames -> sync_fault (snd sf)) ->
+  (forall u b, run_history_fixed M hist body h u b = h u b) /\
+  (forall D a, lookup M (run_history_fixed M hist body h) D a = lookup M h D a).
+Proof. exact history_restores_exact. Qed.
+Print Assumptions C13_history_restores.
+
+(* apply_monkey_patches: every prior _PATCH_STATE (nesting depth), every synchronous fault INCLUDING
+   faults inside the enter loop, every body exit; no side condition, no "entered" premise *)
+Theorem C13_refcount_restores : forall M ks f body h ps,
+  sync_fault f -> ps_wf ps -> amp_body_exact body ->
+  let r := with_amp M true ks f body (h, ps) in
+  (forall t a, snd (fst r) t a = ps t a) /\ (forall u b, fst (fst r) u b = h u b).
+Proof. exact refcount_restores_exact. Qed.
+Print Assumptions C13_refcount_restores.
+
+Theorem C13_refcount_nesting : forall M n ks fb body,
+  amp_body_exact body -> amp_body_exact (amp_depth M true n ks fb body).
+Proof. exact refcount_nesting_exact. Qed.
+Print Assumptions C13_refcount_nesting.
+
+Theorem C13_refcount_restores_getattr : forall M ks f body h ps,
+  sync_fault f -> ps_wf ps -> amp_body_exact body ->
+  forall D a, lookup M (fst (fst (with_amp M true ks f body (h, ps)))) D a = lookup M h D a.
+Proof. exact refcount_restores_getattr. Qed.
+Print Assumptions C13_refcount_restores_getattr.
+
+(* _activate_plugin_worlds = apply_monkey_patches around the ExitStack of plugin frames *)
+Theorem C13_activate_worlds_restores : forall M ks fa frames body,
+  sync_fault fa -> (forall sf, In sf frames -> sync_fault (snd sf)) -> body_restores body ->
+  amp_body_exact (activate_worlds M ks fa frames body).
+Proof. exact activate_worlds_exact. Qed.
+Print Assumptions C13_activate_worlds_restores.
+
+(* what still needs its premise: no exception between setattr and the bookkeeping (asynchronous only) *)
+Theorem C13_async_fault_after_setattr_leaks : exists M h specs k t a, forall fixed,
+  lookup M (fst (with_patches M fixed specs (AfterSet k) (fun x => (x, Returned)) h)) t a <> lookup M h t a.
+Proof. exact async_fault_after_setattr_leaks. Qed.
+Print Assumptions C13_async_fault_after_setattr_leaks.
+
+Theorem C13_amp_async_fault_leaks : exists M h ks k t a,
+  lookup M (fst (fst (with_amp M true ks (AfterSet k) (fun hp => (fst hp, snd hp, Returned)) (h, ps_empty)))) t a
+  <> lookup M h t a.
+Proof. exact amp_async_fault_leaks. Qed.
+Print Assumptions C13_amp_async_fault_leaks.
+
+(* ================================================================== PART L: the code BEFORE b0781c1 *)
 (* ---- apply_patches: getattr restored for ALL spec lists (duplicates allowed), ALL synchronous
    fault points, ALL observers, under the side conditions the proof forces *)
-Theorem C13_apply_patches_restores : forall M specs f body h,
+Theorem C13_legacy_apply_patches_restores : forall M specs f body h,
   sync_fault f ->
   no_inherited_clash M h specs = true ->
   body_restores body ->
   forall D a, mro_coherent M h specs D a = true ->
-    lookup M (fst (with_patches M specs f body h)) D a = lookup M h D a.
+    lookup M (fst (with_patches M false specs f body h)) D a = lookup M h D a.
 Proof. exact apply_patches_restores. Qed.
-Print Assumptions C13_apply_patches_restores.
+Print Assumptions C13_legacy_apply_patches_restores.
 
 (* DESIGN B.3 form: single inheritance (parent chains) needs no coherence premise *)
-Theorem C13_apply_patches_restores_single_inheritance : forall M specs f body h,
+Theorem C13_legacy_apply_patches_restores_single_inheritance : forall M specs f body h,
   tail_coherent M -> sync_fault f -> no_inherited_clash M h specs = true -> body_restores body ->
-  forall D a, lookup M (fst (with_patches M specs f body h)) D a = lookup M h D a.
+  forall D a, lookup M (fst (with_patches M false specs f body h)) D a = lookup M h D a.
 Proof. exact apply_patches_restores_single_inheritance. Qed.
-Print Assumptions C13_apply_patches_restores_single_inheritance.
+Print Assumptions C13_legacy_apply_patches_restores_single_inheritance.
 
 Theorem C13_parent_chain_is_tail_coherent : forall fuel parent,
   (forall t, chain fuel parent t = chain (S fuel) parent t) -> tail_coherent (chain fuel parent).
@@ -36,56 +122,56 @@ Proof. exact chain_tail_coherent. Qed.
 Print Assumptions C13_parent_chain_is_tail_coherent.
 
 (* ---- own-dict level: precisely what is restored *)
-Theorem C13_owned_restored_exactly : forall M specs f body h t a x,
+Theorem C13_legacy_owned_restored_exactly : forall M specs f body h t a x,
   sync_fault f -> body_restores body -> h t a = Some x ->
-  fst (with_patches M specs f body h) t a = Some x.
+  fst (with_patches M false specs f body h) t a = Some x.
 Proof. exact owned_restored_exactly. Qed.
-Print Assumptions C13_owned_restored_exactly.
+Print Assumptions C13_legacy_owned_restored_exactly.
 
-Theorem C13_missing_restored_exactly : forall M specs f body h t a,
+Theorem C13_legacy_missing_restored_exactly : forall M specs f body h t a,
   sync_fault f -> no_inherited_clash M h specs = true -> body_restores body ->
-  lookup M h t a = None -> fst (with_patches M specs f body h) t a = None.
+  lookup M h t a = None -> fst (with_patches M false specs f body h) t a = None.
 Proof. exact missing_restored_exactly. Qed.
-Print Assumptions C13_missing_restored_exactly.
+Print Assumptions C13_legacy_missing_restored_exactly.
 
-Theorem C13_own_after_is_own_or_inherited : forall M specs f body h t a,
+Theorem C13_legacy_own_after_is_own_or_inherited : forall M specs f body h t a,
   sync_fault f -> no_inherited_clash M h specs = true -> body_restores body ->
-  fst (with_patches M specs f body h) t a = h t a \/
+  fst (with_patches M false specs f body h) t a = h t a \/
   (In (t, a) (map spec_key specs) /\ h t a = None /\
-   fst (with_patches M specs f body h) t a = lookup M h t a).
+   fst (with_patches M false specs f body h) t a = lookup M h t a).
 Proof. exact own_after_is_own_or_inherited. Qed.
-Print Assumptions C13_own_after_is_own_or_inherited.
+Print Assumptions C13_legacy_own_after_is_own_or_inherited.
 
 (* ---- nesting *)
-Theorem C13_nested_restores : forall M specs f body Sb h,
+Theorem C13_legacy_nested_restores : forall M specs f body Sb h,
   sync_fault f ->
   clash_free M (owned_in h) (map spec_key specs) Sb = true ->
   body_materializes_only M Sb body ->
   forall D a, coh M h (map spec_key specs ++ Sb) a (D :: M D) = true ->
-    lookup M (fst (with_patches M specs f body h)) D a = lookup M h D a.
+    lookup M (fst (with_patches M false specs f body h)) D a = lookup M h D a.
 Proof. exact nested_restores. Qed.
-Print Assumptions C13_nested_restores.
+Print Assumptions C13_legacy_nested_restores.
 
-Theorem C13_with_patches_composes : forall M specs f body Sb,
+Theorem C13_legacy_with_patches_composes : forall M specs f body Sb,
   sync_fault f ->
   static_clash_free M (map spec_key specs) Sb = true ->
   body_materializes_only M Sb body ->
-  body_materializes_only M (map spec_key specs ++ Sb) (with_patches M specs f body).
+  body_materializes_only M (map spec_key specs ++ Sb) (with_patches M false specs f body).
 Proof. exact with_patches_composes. Qed.
-Print Assumptions C13_with_patches_composes.
+Print Assumptions C13_legacy_with_patches_composes.
 
 (* the ExitStack of per-plugin activations, any depth, a fault schedule per frame *)
-Theorem C13_stack_restores : forall M frames body h,
+Theorem C13_legacy_stack_restores : forall M frames body h,
   (forall sf, In sf frames -> sync_fault (snd sf)) ->
   clash_free M (owned_in h) (stack_keys frames) [] = true ->
   body_restores body ->
   forall D a, coh M h (stack_keys frames) a (D :: M D) = true ->
-    lookup M (fst (with_stack M frames body h)) D a = lookup M h D a.
+    lookup M (fst (with_stack M false frames body h)) D a = lookup M h D a.
 Proof. exact stack_restores. Qed.
-Print Assumptions C13_stack_restores.
+Print Assumptions C13_legacy_stack_restores.
 
 (* any sequence of conversions *)
-Theorem C13_history_restores : forall M S body, body_restores body ->
+Theorem C13_legacy_history_restores : forall M S body, body_restores body ->
   forall hist h,
   (forall frames, In frames hist ->
      (forall sf, In sf frames -> sync_fault (snd sf)) /\ incl (stack_keys frames) S /\
@@ -93,69 +179,69 @@ Theorem C13_history_restores : forall M S body, body_restores body ->
   gcoh M h S ->
   forall D a, lookup M (run_history M hist body h) D a = lookup M h D a.
 Proof. exact history_restores. Qed.
-Print Assumptions C13_history_restores.
+Print Assumptions C13_legacy_history_restores.
 
 (* ---- the side conditions are necessary (refutations, by computation on concrete heaps) *)
-Theorem C13_inherited_clash_leaks : exists M h specs t a,
+Theorem C13_legacy_inherited_clash_leaks : exists M h specs t a,
   no_inherited_clash M h specs = false /\ mro_coherent M h specs t a = true /\
-  lookup M (fst (with_patches M specs NoFault (fun x => (x, Returned)) h)) t a <> lookup M h t a.
+  lookup M (fst (with_patches M false specs NoFault (fun x => (x, Returned)) h)) t a <> lookup M h t a /\
+  lookup M (fst (with_patches M true specs NoFault (fun x => (x, Returned)) h)) t a = lookup M h t a.
 Proof. exact inherited_clash_leaks. Qed.
-Print Assumptions C13_inherited_clash_leaks.
+Print Assumptions C13_legacy_inherited_clash_leaks.
 
-Theorem C13_incoherent_mro_leaks : exists M h specs D a,
+Theorem C13_legacy_incoherent_mro_leaks : exists M h specs D a,
   no_inherited_clash M h specs = true /\ mro_coherent M h specs D a = false /\
-  lookup M (fst (with_patches M specs NoFault (fun x => (x, Returned)) h)) D a <> lookup M h D a.
+  lookup M (fst (with_patches M false specs NoFault (fun x => (x, Returned)) h)) D a <> lookup M h D a /\
+  lookup M (fst (with_patches M true specs NoFault (fun x => (x, Returned)) h)) D a = lookup M h D a.
 Proof. exact incoherent_mro_leaks. Qed.
-Print Assumptions C13_incoherent_mro_leaks.
+Print Assumptions C13_legacy_incoherent_mro_leaks.
 
-Theorem C13_async_fault_after_setattr_leaks : exists M h specs k t a,
-  lookup M (fst (with_patches M specs (AfterSet k) (fun x => (x, Returned)) h)) t a <> lookup M h t a.
-Proof. exact async_fault_after_setattr_leaks. Qed.
-Print Assumptions C13_async_fault_after_setattr_leaks.
 
 (* ---- apply_monkey_patches ref-counting *)
-Theorem C13_refcount_restores : forall M ks f body Sb h ps,
+Theorem C13_legacy_refcount_restores : forall M ks f body Sb h ps,
   no_apply_fault f -> ps_wf ps -> amp_body_ok M ks Sb body ->
   clash_free M (owned_in h) (amp_patched ps ks) Sb = true ->
-  amp_entered M ks f (h, ps) = true ->
-  let r := with_amp M ks f body (h, ps) in
+  amp_entered M false ks f (h, ps) = true ->
+  let r := with_amp M false ks f body (h, ps) in
   (forall t a, snd (fst r) t a = ps t a) /\ R M (amp_patched ps ks ++ Sb) h (fst (fst r)).
 Proof. exact refcount_restores. Qed.
-Print Assumptions C13_refcount_restores.
+Print Assumptions C13_legacy_refcount_restores.
 
-Theorem C13_refcount_reentrant : forall M ks f body Sb h ps,
+Theorem C13_legacy_refcount_reentrant : forall M ks f body Sb h ps,
   no_apply_fault f -> ps_wf ps -> all_active ps ks -> amp_body_ok M ks Sb body ->
-  let r := with_amp M ks f body (h, ps) in
-  amp_entered M ks f (h, ps) = true /\
+  let r := with_amp M false ks f body (h, ps) in
+  amp_entered M false ks f (h, ps) = true /\
   (forall t a, snd (fst r) t a = ps t a) /\ R M Sb h (fst (fst r)).
 Proof. exact refcount_reentrant. Qed.
-Print Assumptions C13_refcount_reentrant.
+Print Assumptions C13_legacy_refcount_reentrant.
 
-Theorem C13_refcount_nesting : forall M n ks fb body Sb h ps,
+Theorem C13_legacy_refcount_nesting : forall M n ks fb body Sb h ps,
   ps_wf ps -> amp_body_ok M ks Sb body ->
   clash_free M (owned_in h) (amp_patched ps ks) Sb = true ->
-  amp_entered M ks NoFault (h, ps) = true ->
-  let r := amp_depth M (S n) ks fb body (h, ps) in
+  amp_entered M false ks NoFault (h, ps) = true ->
+  let r := amp_depth M false (S n) ks fb body (h, ps) in
   (forall t a, snd (fst r) t a = ps t a) /\ R M (amp_patched ps ks ++ Sb) h (fst (fst r)).
 Proof. exact refcount_nesting. Qed.
-Print Assumptions C13_refcount_nesting.
+Print Assumptions C13_legacy_refcount_nesting.
 
-Theorem C13_refcount_restores_lookup : forall M ks f body h ps,
+Theorem C13_legacy_refcount_restores_lookup : forall M ks f body h ps,
   no_apply_fault f -> ps_wf ps -> amp_body_ok M ks [] body ->
   clash_free M (owned_in h) (amp_patched ps ks) [] = true ->
-  amp_entered M ks f (h, ps) = true ->
+  amp_entered M false ks f (h, ps) = true ->
   forall D a, coh M h (amp_patched ps ks) a (D :: M D) = true ->
-    lookup M (fst (fst (with_amp M ks f body (h, ps)))) D a = lookup M h D a.
+    lookup M (fst (fst (with_amp M false ks f body (h, ps)))) D a = lookup M h D a.
 Proof. exact refcount_restores_lookup. Qed.
-Print Assumptions C13_refcount_restores_lookup.
+Print Assumptions C13_legacy_refcount_restores_lookup.
 
 (* REFUTED for exceptions inside the enter loop (it runs before the try) *)
-Theorem C13_amp_apply_fault_leaks : exists M h ks t a,
-  let r := with_amp M ks NoFault (fun hp => (fst hp, snd hp, Returned)) (h, ps_empty) in
-  amp_entered M ks NoFault (h, ps_empty) = false /\
-  lookup M (fst (fst r)) t a <> lookup M h t a /\ snd (fst r) t a <> ps_empty t a.
+Theorem C13_legacy_amp_apply_fault_leaks : exists M h ks t a,
+  let r := with_amp M false ks NoFault (fun hp => (fst hp, snd hp, Returned)) (h, ps_empty) in
+  let r' := with_amp M true ks NoFault (fun hp => (fst hp, snd hp, Returned)) (h, ps_empty) in
+  amp_entered M false ks NoFault (h, ps_empty) = false /\
+  lookup M (fst (fst r)) t a <> lookup M h t a /\ snd (fst r) t a <> ps_empty t a /\
+  lookup M (fst (fst r')) t a = lookup M h t a /\ snd (fst r') t a = ps_empty t a.
 Proof. exact amp_apply_fault_leaks. Qed.
-Print Assumptions C13_amp_apply_fault_leaks.
+Print Assumptions C13_legacy_amp_apply_fault_leaks.
 
 (* ---- x64 flag: every previous value, every requested precision, every body and exit *)
 Theorem C13_x64_flag_restored : forall enable_double body flag,
